@@ -89,7 +89,7 @@ pub fn relative_loc(loc: &str) -> String {
     loc.strip_prefix(root.as_str()).or_else(|| loc.strip_prefix("/repo/")).unwrap_or(loc).to_string()
 }
 
-pub const FUEL: u64 = 200_000;
+pub const FUEL: u64 = 30_000;
 pub const DEPTH: u32 = 400;
 pub const MAXLEN: usize = 1 << 16;
 
